@@ -48,6 +48,18 @@ func genC12(tier string, rng *RNG, w *CaseWriter) {
 			}
 		}
 	}
+	// a context that is already cancelled: every exchange fails, the slice must still be complete
+	for n := 2; n <= 5; n++ {
+		for k := 0; k < 8; k++ {
+			plans := make([]srcPlan, n-1)
+			for i := range plans {
+				plans[i] = randPlan()
+			}
+			rc := buildPlanCase(0, "cs", plans, time.Time{}, k%2 == 0)
+			rc.Cancel = "before"
+			emitRev(w, rc, true, "cancelled-before")
+		}
+	}
 	// systematic: every single-source outcome at every position of a length-4 chain
 	for pos := 0; pos < 3; pos++ {
 		for _, o := range oAl {
